@@ -146,6 +146,12 @@ class EffectivePotential(ABC):
         resValue = np.empty_like(T)
         resLocation = np.empty_like(guesses)
 
+        # Step of the finite-difference gradient, relative to max(|field|, field scale)
+        stepRel = np.finfo(float).eps ** (1 / 3)
+        fieldScale = 1.0
+        if self.areDerivativesConfigured():
+            fieldScale = np.abs(self.derivativeSettings.fieldValueVariationScale)
+
         for i in range(0, numPoints):
 
             """Numerically minimize the potential wrt. fields. 
@@ -163,8 +169,23 @@ class EffectivePotential(ABC):
             # scipy's default gradient is a forward difference with an absolute step of
             # 1.5e-8, which cannot resolve the minimum when the fields or the potential
             # are large (the potential is dominated by its T^4 part). Use central
-            # differences with scipy's relative step instead.
-            res = scipy.optimize.minimize(evaluateWrapper, guess, jac="3-point", tol=tol)
+            # differences with a relative step instead. The step of a small or vanishing
+            # field component is set by the configured field scale (scipy's own
+            # "3-point" rule uses 1 there, whatever the units).
+            def gradientWrapper(fieldArray: np.ndarray):
+                x = np.asarray(fieldArray, dtype=float)
+                steps = stepRel * np.maximum(np.abs(x), fieldScale)
+                grad = np.empty_like(x)
+                for j, h in enumerate(steps):
+                    xPlus, xMinus = x.copy(), x.copy()
+                    xPlus[j] += h
+                    xMinus[j] -= h
+                    grad[j] = np.squeeze(
+                        evaluateWrapper(xPlus) - evaluateWrapper(xMinus)
+                    ) / (xPlus[j] - xMinus[j])
+                return grad
+
+            res = scipy.optimize.minimize(evaluateWrapper, guess, jac=gradientWrapper, tol=tol)
 
             resLocation[i] = res.x
             resValue[i] = res.fun
